@@ -44,8 +44,38 @@ def run(res, proofs_ok, proofs_why):
     # clause (c) on files: a segment clients could open - whatever the length of the file, a file cut short
     # behind a valid header included - is taken over in place: the generation goes on from the value in the
     # file (a wipe would show as a restart from 0 -> 2)
-    from props import C11
-    fbad = C11.file_part(res)
+    from props import C11, _files as F
+    import random
+    results, _ = F.run_corpus(res, "C04", random.Random(res.seed * 131 + 11), 0)
+    fbad = C11.file_part(res, results)
+    # ... and a segment that was left unusable - every state a death inside the creation of the file can leave
+    # included - is repaired: after the daemon has started over it and published once, the file holds the whole
+    # segment with the published record, and a client attaching then obtains that record
+    rbad = []
+    for r in results:
+        if r["kind"] != 0 or F.oracle_open(r["kind"], r["data"]) == "ok" or not r["wrt"].startswith("W:ok"):
+            continue
+        res.evaluations += 1
+        res.count("repair of an unusable file")
+        after, rec = r["after"], r["record"]
+        why = []
+        got = r["wrt"].split("R:", 1)[1] if "R:" in r["wrt"] else r["wrt"]
+        if got != ":".join(str(x) for x in rec):
+            why.append("a client attaching after the first publication obtained %s, published %s" % (got, rec))
+        if after is None or len(after) < 72:
+            why.append("after the daemon started over this file and published, the file is %s bytes long: the record is not in the file "
+                       "(stores into the mapping beyond the end of the file are never written back)" % (None if after is None else len(after)))
+        else:
+            d = F.proto_decode(after[:72])
+            if (d["as_of_sec"], d["as_of_nsec"], d["void_after_sec"], d["void_after_nsec"], d["bound"], d["max_drift"], d["status"]) != rec:
+                why.append("the file does not hold the published record %s after the first publication: %s" % (rec, d))
+        if why:
+            rbad.append({"file": r["tag"], "file_length": len(r["data"]), "bytes_hex": r["data"].hex()[:200], "wrt": r["wrt"], "why": why})
+    res.oblige("clause (c): every unusable file of the corpus is repaired by a starting daemon (whole segment in the file, new clients obtain the first publication)", not rbad)
+    if rbad:
+        res.violation({"property": "C04", "kind": "input", "case": rbad[0], "others": [b["file"] for b in rbad[1:5]],
+                       "predicate": "a segment that was left unusable is repaired so that new clients can attach after the first publication",
+                       "how_to_replay": "./check C16 --replay <this file>"})
     res.oblige("clause (c): every file of the corpus that clients can open is taken over in place by a starting daemon", not fbad)
     if fbad:
         res.violation({"property": "C04", "kind": "input", "case": fbad[0], "others": [b["file"] for b in fbad[1:5]],
